@@ -508,6 +508,16 @@ func genRtE2E(emit func(string), tier string, rng *Rng) {
 		}
 	}
 
+	for _, vs := range typeSamples {
+		for _, bt := range allBaseTypes {
+			o := e2eOpts{arch: rng.Intn(2), hopt: rng.Intn(2), lmt: rng.Intn(4), pv: 0x20, chk: 1, preserve: rng.Bool()}
+			f := proto.Field{FieldBase: &proto.FieldBase{Name: factory.NameUnknown, Num: 77, BaseType: basetype.BaseType(bt),
+				Type: profile.ProfileType(bt & basetype.BaseTypeNumMask), Scale: 1}, Value: mustValue(vs)}
+			std(o, e2eFile{14, 0, 0, []proto.Message{{Num: 0xff00, Fields: []proto.Field{f, e2eUnknownField(rng, 78, 0)}}}})
+			count("type-x-basetype")
+		}
+	}
+
 	// --- c. strings: the corpus in a known scalar string field, a known string-array field, an unknown field, a developer field
 	ddi0 := devDataIdMesg(0)
 	for _, s := range stringCorpus {
@@ -560,7 +570,7 @@ func genRtE2E(emit func(string), tier string, rng *Rng) {
 			}
 		}
 	}
-	for it := 0; it < 150; it++ {
+	for it := 0; it < 500; it++ {
 		o := e2eRandOpts(rng)
 		o.pv = 0x20
 		var msgs []proto.Message
@@ -676,7 +686,7 @@ func genRtE2E(emit func(string), tier string, rng *Rng) {
 		}
 		return proto.Field{FieldBase: fb, Value: v}
 	}
-	nTbl := 400
+	nTbl := 1200
 	if thorough {
 		nTbl = 6000
 	}
@@ -715,7 +725,7 @@ func genRtE2E(emit func(string), tier string, rng *Rng) {
 	}
 
 	// --- g. random mixtures: profile and unknown messages / fields, chains of 1..3 files, every option
-	nr := 2500
+	nr := 6000
 	if thorough {
 		nr = 60000
 	}
@@ -740,6 +750,20 @@ func genRtE2E(emit func(string), tier string, rng *Rng) {
 				known := prof.fields[mn]
 				for j := 1 + rng.Intn(5); j > 0; j-- {
 					mode := []int{0, 0, 0, 1, 1, 2, 3}[rng.Intn(7)]
+					if rng.Intn(40) == 0 { // a value of another type than the field's (validation must reject the file)
+						num := e2eFreeNum(mn)
+						if len(known) > 0 && rng.Bool() {
+							num = known[rng.Intn(len(known))]
+						}
+						f := factory.StandardFactory().CreateField(typedef.MesgNum(mn), num)
+						if f.Name == factory.NameUnknown {
+							f.BaseType = basetype.BaseType(allBaseTypes[rng.Intn(len(allBaseTypes))])
+						}
+						f.Value = mustValue(typeSamples[1+rng.Intn(len(typeSamples)-1)])
+						m.Fields = append(m.Fields, f)
+						count("random:foreign-type")
+						continue
+					}
 					if len(known) > 0 && rng.Intn(5) != 0 {
 						n := known[rng.Intn(len(known))]
 						if n == 253 {
